@@ -517,7 +517,9 @@ bool SessionManager::handle_pending_handshake(const PeerId& peer_id, SocketHandl
     const bool accepted = replace_session(peer_id, session);
 
     if (!accepted) {
-        return false;
+        // The existing session was preferred and replace_session() has already closed this socket;
+        // report it as handled so that the caller does not close the descriptor a second time.
+        return true;
     }
 
     {
